@@ -143,6 +143,12 @@ def directed():
                    (2.0, None, False), [("read", "elapsed"), ("read", "remaining"), ("read", "expired"), ("start", None, None),
                                         ("read", "duration"), ("restart", None), ("read", "elapsed"), ("read", "expired"),
                                         ("read", "expired")]))
+    # the clock steps (1.7e9 -> 5.0) between the two readings the constructor takes: the duration given must survive exactly
+    out.append(_ck("timer", [1.7e9 + 0.3, 5.0, 5.05, 5.1, 5.1], (0.1, None, False),
+                   [("read", "duration"), ("read", "expired"), ("read", "expired"), ("restart", None), ("read", "duration")],
+                   dyadic=False))
+    out.append(_ck("mono", [1.7e9 + 0.3, 5.0, 5.05, 5.1, 5.1], (0.1, None, True),
+                   [("read", "duration"), ("restart", None), ("read", "duration")], dyadic=False))
     # AsyncTimer: wall clock ~1.8e9 (float spacing 2**-22 s) vs a small event-loop clock; the duration given to the
     # constructor must survive exactly (0.1, 0.3, 0.05, 0.01 are not multiples of 2**-22)
     for d in (0.1, 0.3, 0.05, 0.01, 0.03125):
@@ -257,6 +263,8 @@ def _gen_clock(rng, cls, dyadic):
         else:
             t = _val(rng, dyadic, 0, 200)
         clock.append(t)
+    if cls != "atimer" and not dyadic and clock and rng.random() < 0.15:
+        clock[0] = clock[0] + rng.choice([1.7e9, -1.7e9, 1e6])      # the clock steps between the constructor's two readings
     dur = _val(rng, dyadic, 0, 6) if rng.random() < 0.7 else step * rng.randint(0, 6)
     if cls == "atimer" and not dyadic and rng.random() < 0.6:
         dur = rng.choice([0.1, 0.3, 0.05, 0.01, 0.2, 1 / 3, 0.7, 1e-3, 2.5e-7, 1e-9])
@@ -766,11 +774,11 @@ def distribution(cases, obs):
 
 def extra(tier, ctx):
     """Exhaustive small-grid sweep of the direct oracle on the real classes (no model involved):
-    MonoTimer under every clock script over {0,1,2,3} of length 7 (thorough: {0..4}, length 8) for both retro
+    MonoTimer under every clock script over {0,1,2,3} (thorough: {0..4}) of length 7 for both retro
     settings and two op patterns; Tymer under every (start, duration, restart tyme, read tyme) on a 0..4 grid."""
     import itertools
     vals = [0.0, 1.0, 2.0, 3.0] + ([4.0] if tier == "thorough" else [])
-    n = 8 if tier == "thorough" else 7
+    n = 7
     pats = [[["read", "elapsed"], ["read", "expired"]], [["read", "expired"], ["latest"], ["read", "remaining"], ["read", "elapsed"]]]
     count = 0
     for clock in itertools.product(vals, repeat=n):
